@@ -566,3 +566,112 @@ Fixpoint ev_get (p : path) (v : ev) : option ev :=
   | [] => Some v
   | k :: r => match v with ERec fs => opt_bind (lookup k fs) (ev_get r) | _ => None end
   end.
+
+(* =====================================================================================
+   Part 6 — kinds: what happens to a written value whose kind does not fit its field.
+
+   confmap.decodeConfig sets WeaklyTypedInput = false.  mapstructure then decodes by the kind of
+   the TARGET (decodeBool / decodeString / decodeInt / decodeUint / decodeFloat / decodeSlice /
+   decodeStruct), after the hook chain (of which StringToSliceHookFunc(",") and
+   StringToTimeDurationHookFunc matter for the kinds covered here):
+     bool    <- bool only
+     string  <- string only
+     int     <- int, uint, and ALSO float: int64(f), i.e. truncated towards zero, no error
+     uint    <- the same, negative values rejected
+     float   <- int, uint, float
+     duration (int64 + hook)  <- string through time.ParseDuration, otherwise as int (ns)
+     []string <- list; a string is split on "," by the hook ("" gives the empty list)
+     struct  <- map only ("expected a map, got ...")
+   null leaves the field alone.  Everything else is the error
+     '<key path>' expected type '<T>', got unconvertible type '<U>', value: '<v>' .            *)
+Inductive lkind : Type := KBool | KInt | KUint | KFloat | KString | KDuration | KStrSlice | KStruct.
+
+(* what the user wrote: a float is (integer part towards zero, has a non-zero fraction?) *)
+Inductive wv : Type :=
+| WNull | WBool (b : bool) | WInt (z : Z) | WFloat (whole : Z) (frac : bool) | WStr (s : string)
+| WList | WMap.
+
+Inductive dres : Type :=
+| DErr                                (* rejected, error names the key *)
+| DKeep                               (* field left alone *)
+| DBool (b : bool)
+| DNum (z : Z) (frac : bool)          (* numeric value: integer part, has a fraction? *)
+| DStr (s : string)
+| DList (l : list string)
+| DOther.                             (* decoded structurally (list into slice, map into struct, duration text): other parts *)
+
+(* strings.Split(s, ",") *)
+Fixpoint split_comma_aux (s : string) (cur : string) : list string :=
+  match s with
+  | EmptyString => [cur]
+  | String c r =>
+      if Ascii.eqb c ","%char then cur :: split_comma_aux r EmptyString
+      else split_comma_aux r (String.append cur (String c EmptyString))
+  end.
+Definition split_comma (s : string) : list string :=
+  match s with EmptyString => [] | _ => split_comma_aux s EmptyString end.
+
+Definition decode_num (unsigned : bool) (w : wv) : dres :=
+  match w with
+  | WInt z => if unsigned && (z <? 0)%Z then DErr else DNum z false
+  | WFloat z _ => if unsigned && (z <? 0)%Z then DErr else DNum z false   (* int64(f): fraction dropped *)
+  | _ => DErr
+  end.
+
+Definition decode_leaf (k : lkind) (w : wv) : dres :=
+  match w with
+  | WNull => DKeep
+  | _ =>
+    match k with
+    | KBool => match w with WBool b => DBool b | _ => DErr end
+    | KString => match w with WStr s => DStr s | _ => DErr end
+    | KInt => decode_num false w
+    | KUint => decode_num true w
+    | KDuration => match w with WStr _ => DOther | _ => decode_num false w end
+    | KFloat => match w with WInt z => DNum z false | WFloat z f => DNum z f | _ => DErr end
+    | KStrSlice => match w with WStr s => DList (split_comma s) | WList => DOther | _ => DErr end
+    | KStruct => match w with WMap => DOther | _ => DErr end
+    end
+  end.
+
+(* =====================================================================================
+   Part 7 — omitempty in the effective configuration and the round trip.
+
+   encodeStruct skips a field when its tag says `omitempty` and reflect's IsZero holds for the
+   value (a nested struct is zero when all its fields are).  [otv] is the typed configuration as
+   in Part 4 (plain leaves under struct nesting, flattened through squash) with, per node, the
+   omitempty flag of its field and, per leaf, whether the value is the zero value of its type.
+   Decoding the encoding INTO the factory defaults is [overlay (o_strip defaults)]. *)
+Inductive otv : Type :=
+| OSc (omit zero : bool) (s : string)
+| ORec (omit : bool) (fs : list (string * otv)).
+
+Fixpoint o_strip (v : otv) : tv :=
+  match v with
+  | OSc _ _ s => VSc s
+  | ORec _ fs => VRec ((fix go (fs : list (string * otv)) : list (string * tv) :=
+                          match fs with [] => [] | (k, x) :: r => (k, o_strip x) :: go r end) fs)
+  end.
+
+Fixpoint o_zero (v : otv) : bool :=
+  match v with
+  | OSc _ z _ => z
+  | ORec _ fs => (fix go (fs : list (string * otv)) : bool :=
+                    match fs with [] => true | (_, x) :: r => o_zero x && go r end) fs
+  end.
+
+Definition o_omit (v : otv) : bool := match v with OSc o _ _ => o | ORec o _ => o end.
+
+(* the field is left out of the effective configuration *)
+Definition o_omitted (v : otv) : bool := o_omit v && o_zero v.
+
+Fixpoint encode_o (v : otv) : cv :=
+  match v with
+  | OSc _ _ s => CScalar s
+  | ORec _ fs =>
+      CMap ((fix go (fs : list (string * otv)) : list (string * cv) :=
+               match fs with
+               | [] => []
+               | (k, x) :: r => if o_omitted x then go r else (k, encode_o x) :: go r
+               end) fs)
+  end.
